@@ -2,4 +2,7 @@ package main
 
 import (
 	_ "verifharness/internal/c42"
+	"verifharness/internal/hx"
 )
+
+func main() { hx.Main() }
